@@ -635,6 +635,32 @@ def _reload(ctx):
     ctx.require(pairs, 'remove_server followed by load_server in '
                        'reload_server', rule='C09.4')
     defs = M.local_defs(func)
+    # a server is dropped for good - its instances forgotten by the model
+    # while their records stay - only when its record is gone (the handler
+    # of the read) or holds nothing (it never reported a capacity, so it
+    # never held an instance); every other removal is the first half of a
+    # replacement.  Anything else ("its parent bucket is unknown") makes the
+    # next cycle place instances that are still recorded on the dropped
+    # server: a second record.
+    facts = N.must_facts(graph, nz)
+    record = set(name for name, vals in defs.items() if any(
+        isinstance(v, ast.Call) and K.is_meth(v, 'get', 'get_default') and
+        (K.recv_text(v) or '').endswith('backend') for v in vals))
+    for rnode in removes:
+        replaced = any(r is rnode for r, _l in pairs) and K.find_path(
+            rnode, [graph.exit], cut_node=lambda n: n in loads,
+            follow_exc=False) is None
+        in_handler = K.guarded_by(graph, rnode, lambda e: (
+            e.src.kind == 'handler' and 'ObjectNotFoundError' in
+            N.txt(e.src.ast.type) if e.src.kind == 'handler' and
+            e.src.ast.type is not None else False))
+        empty = any(f.key[0] == 'truth' and not f.key[2] and
+                    f.key[1] in record for f in facts[rnode])
+        ctx.ob('C09.4', func, rnode, replaced or in_handler or empty,
+               'reload_server drops a server for good only when its record '
+               'is gone or empty; otherwise the removal is followed by '
+               'load_server (a replacement)',
+               construct='reload: server dropped only without a record')
 
     def restores(node):
         return any(K.is_meth(c, 'restore_placement')
